@@ -59,7 +59,12 @@ def parse_sx(s):
             return out
         return int(t)
 
-    v = val()
+    try:
+        v = val()
+    except (IndexError, ValueError):
+        # not a value of the case language (e.g. a diagnostic a library printed on the merged stderr):
+        # reported like a harness error instead of crashing the driver
+        return "!unparsable " + s[:200]
     return v
 
 
